@@ -301,6 +301,22 @@ def main():
                 found = mod.search(ctx, broken)
             except Exception:
                 print(traceback.format_exc())
+        if not found and ctx.runner is not None and not hasattr(mod, "search") and not ctx.thorough and os.environ.get("VERIF_NO_DEEP_SEARCH") != "1":
+            # no property-specific search: the correspondence at its thorough size (more generated cases, every enumeration in full) is the
+            # search for a failing input
+            try:
+                ctx.thorough = True
+                res2 = mod.correspondence(ctx, model_ok=model_ok)
+                for f in res2.get("failures", []):
+                    sig = f.get("signature", "")
+                    if f.get("failing_input", True) and not any(k.get("signature") == sig and (not k.get("only_names") or f.get("name") in k["only_names"]) for k in open_known):
+                        found.append(f)
+                        if len(found) >= 5:
+                            break
+            except Exception:
+                print(traceback.format_exc())
+            finally:
+                ctx.thorough = False
         if found:
             for f in found:
                 violations.append((vlib.write_replay(prop, f), ""))
